@@ -322,6 +322,89 @@ theorem act_crash (A : DName → Option V → Prop) (ip : Bool) (s : DirFS V) (n
     rw [hs1, hs0] at hall hprog
     exact ⟨hall, by rw [hprog]; exact hw3, by rw [hprog]; exact hn3, fun i hi => by rw [hprog]; exact hfresh3 i hi⟩
 
+/-! ### what a completed action leaves: the disk model (M8) implements the mapping model (M7) -/
+
+/-- **a completed `_store(n, v)` reads as `contents[n] = v`**: afterwards the entry `n` holds `v` and every
+other entry is as before — the view-level meaning of M7's `dirStore` (`View.put`) -/
+theorem store_final (ip : Bool) (s : DirFS V) (next : Nat) (n : String) (ni : Bool) (v : V)
+    (hn : (keys s).Nodup) (hf : FreshFrom next s) (m : String) :
+    valAt true (drun s (actProg true ip s next (.store n ni v))) (.key m) =
+      if m = n then some v else valAt true s (.key m) := by
+  simp only [actProg, storeProg, removeProg, if_true]
+  have hft0 := hf next (Nat.le_refl _)
+  have hft1 := hf (next + 1) (Nat.le_succ _)
+  obtain ⟨s0, hs0⟩ : ∃ x, x = drun s (stageProg ni (.temp next) v) := ⟨_, rfl⟩
+  have hn0 : (keys s0).Nodup := by rw [hs0]; exact nodup_drun s _ hn
+  have hg0 : ∀ x, get? s0 x = if x = .temp next then some { out := some (.full v), inp := if ni then some (.full ()) else none } else get? s x := by
+    rw [hs0]; exact drun_stageProg ni s next v hft0
+  have hft1' : get? s0 (.temp (next + 1)) = none := by rw [hg0]; simp [hft1]
+  obtain ⟨s1, hs1⟩ : ∃ x, x = dstep s0 (.rename (.key n) (.temp (next + 1))) := ⟨_, rfl⟩
+  have hn1 : (keys s1).Nodup := by rw [hs1]; exact nodup_dstep s0 _ hn0
+  obtain ⟨s2, hs2⟩ : ∃ x, x = drun s1 (rmProg ip s1 (.temp (next + 1))) := ⟨_, rfl⟩
+  have hn2 : (keys s2).Nodup := by rw [hs2]; exact nodup_drun s1 _ hn1
+  have hg2 : ∀ x, get? s2 x = if x = .temp (next + 1) then none else get? s1 x := by
+    rw [hs2]; exact drun_rmProg ip s1 (.temp (next + 1)) hn1
+  have hs1get : ∀ x, get? s1 x = if x = .temp (next + 1) then get? s0 (.key n) else if x = .key n then none else get? s0 x := by
+    intro x
+    cases hg : get? s0 (.key n) with
+    | none =>
+      rw [hs1, rename_absent s0 _ _ hg]
+      by_cases h1 : x = .temp (next + 1)
+      · simp [h1, hft1']
+      · by_cases h2 : x = .key n
+        · simp [h2, hg]
+        · simp [h1, h2]
+    | some d => rw [hs1, get?_rename s0 _ _ d hn0 hg hft1']
+  have hkey2 : get? s2 (.key n) = none := by rw [hg2, hs1get]; simp
+  have htmp2 : get? s2 (.temp next) = some { out := some (.full v), inp := if ni then some (.full ()) else none } := by
+    rw [hg2, hs1get]; simp [hg0]
+  have hget3 := get?_rename s2 (.temp next) (.key n) _ hn2 htmp2 hkey2
+  have hprog : drun s (stageProg ni (.temp next) v ++ (DSys.rename (.key n) (.temp (next + 1)) :: rmProg ip s1 (.temp (next + 1))) ++
+      [DSys.rename (.temp next) (.key n)]) = dstep s2 (.rename (.temp next) (.key n)) := by
+    rw [drun_append, drun_append, ← hs0]
+    simp only [drun, List.foldl_cons, List.foldl_nil, ← hs1]
+    rw [show List.foldl dstep s1 (rmProg ip s1 (.temp (next + 1))) = s2 from hs2.symm]
+  rw [hs1, hs0] at hprog
+  rw [hprog]
+  simp only [valAt, visible, if_true, hget3]
+  by_cases hm : m = n
+  · subst hm; simp; cases ni <;> rfl
+  · simp only [hm, if_false]
+    have : (DName.key m) ≠ .key n := by simpa using hm
+    simp only [this, if_false]
+    rw [hg2, hs1get]; simp [this, hg0]
+
+/-- **a completed `_rmdir(n)` reads as `del contents[n]`** (M7's `dirRm`: `View.del`) -/
+theorem remove_final (ip : Bool) (s : DirFS V) (next : Nat) (n : String)
+    (hn : (keys s).Nodup) (hf : FreshFrom next s) (m : String) :
+    valAt true (drun s (actProg true ip s next (.remove n))) (.key m) =
+      if m = n then none else valAt true s (.key m) := by
+  simp only [actProg, removeProg, if_true]
+  have hft := hf next (Nat.le_refl _)
+  obtain ⟨s1, hs1⟩ : ∃ x, x = dstep s (.rename (.key n) (.temp next)) := ⟨_, rfl⟩
+  have hn1 : (keys s1).Nodup := by rw [hs1]; exact nodup_dstep s _ hn
+  have hfin := drun_rmProg ip s1 (.temp next) hn1 (.key m)
+  have hs1get : get? s1 (.key m) = if m = n then none else get? s (.key m) := by
+    cases hg : get? s (.key n) with
+    | none =>
+      rw [hs1, rename_absent s _ _ hg]
+      by_cases hm : m = n
+      · subst hm; simp [hg]
+      · simp [hm]
+    | some d =>
+      rw [hs1, get?_rename s _ _ d hn hg hft]
+      by_cases hm : m = n
+      · subst hm; simp
+      · have : (DName.key m) ≠ .key n := by simpa using hm
+        simp [hm, this]
+  have : drun s (DSys.rename (.key n) (.temp next) :: rmProg ip s1 (.temp next)) = drun s1 (rmProg ip s1 (.temp next)) := by
+    simp [drun, hs1]
+  rw [hs1] at this
+  rw [this, ← hs1]
+  simp only [valAt, visible, if_true, hfin]
+  simp only [reduceCtorEq, if_false, hs1get]
+  by_cases hm : m = n <;> simp [hm]
+
 /-! ### sequences of actions: `update`, `dump`, `clear`, `popkeys` -/
 
 theorem freshFrom_mono {a b : Nat} (h : a ≤ b) (s : DirFS V) (hf : FreshFrom a s) : FreshFrom b s :=
